@@ -7,6 +7,14 @@ CLAIMED = {
    text="Bounded symbolic model checking of the real calcLeaderOfViewAndCommittee / isLeaderOfViewForThisCommittee: for each committee size n the 64-bit view is one symbolic variable, so each solver verdict covers all 2^64 views (no panic, result = members[view mod n], determinism, n consecutive views give n distinct leaders). Sizes are concrete per query (quick: 4,5,7,22,64; thorough: every n in 4..64).",
    note="Trusted: the gosym SSA interpreter (validated by native replay of every model), cvc5 1.0 integer blasting / z3; committee ids are the concrete bytes 1..n.",
    design="6/C18"),
+ "C06": dict(
+   text="Bounded symbolic model checking of the real quorum package (CalcQuorumWeight, CalcByzMaxWeight, IsQuorum, HasHonest, getCommitteeSubsetWeight incl. its map[string]bool and the hex MemberId.String keys): all member weights are symbolic 64-bit values (total < 2^64, totals above 2^53 and near 2^64 included) and the id lists are lists of symbolic bytes, so one solver verdict covers every weight vector, every subset, every duplicate/outsider pattern for the given sizes. Assertions: f and Q exact, reported weight = sum over members occurring in the list, quorum intersection > f, quorum implies has-honest, complement of any <=f subset is a quorum, monotonicity, foreign ids add nothing.",
+   note="Trusted: gosym interpreter and its merged-map / hex-string models (validated by native replay), cvc5 --solve-bv-as-int=sum, z3. Sizes: n=4 with lists of 5 (quick), n=4..7 with lists of n+2 (thorough).",
+   design="6/C06"),
+ "C19": dict(
+   text="Bounded symbolic model checking of the real CalcTimeout: base symbolic in [1ns,2^62ns], views 0..70 as concrete cases and all views >= 71 as one symbolic class; assertions: result > 0, = base*2^view while that fits in int64, = the saturated maximum otherwise, never above the maximum, and CalcTimeout(view-1) <= CalcTimeout(view) for every view >= 1 (monotone by transitivity). The timer/Stop race, 'not before the timeout' and eventual delivery clauses are runtime-scheduler properties and are outside the claim.",
+   note="Trusted: gosym interpreter, math.Pow(2,y) summary (native for concrete y; >= 2^64 for symbolic y >= 64), amd64 float->int conversion model, cvc5/z3.",
+   design="6/C19"),
 }
 
 NOT_APPLICABLE = {
